@@ -568,21 +568,50 @@ Qed.
 Lemma fast_no_null_eq st : fast_path st = true -> join_null_eq st = false.
 Proof. intro H. unfold join_null_eq, uses_index. rewrite H. reflexivity. Qed.
 
+Lemma existsb_same_set (p : cell -> bool) (f : nat -> cell) (a b : list nat) :
+  same_set a b = true -> existsb p (map f a) = existsb p (map f b).
+Proof.
+  unfold same_set. intro H. apply andb_true_iff in H as [Hab Hba].
+  assert (G : forall a b, forallb (fun x => existsb (Nat.eqb x) b) a = true -> existsb p (map f a) = true -> existsb p (map f b) = true).
+  { clear. intros a b H E. rewrite existsb_map in *. apply existsb_exists in E as [x [Hx Px]].
+    rewrite forallb_forall in H. specialize (H x Hx). apply existsb_exists in H as [y [Hy Exy]].
+    apply Nat.eqb_eq in Exy. subst y. apply existsb_exists. exists x. auto. }
+  destruct (existsb p (map f a)) eqn:Ea.
+  - symmetry. apply (G a b Hab Ea).
+  - destruct (existsb p (map f b)) eqn:Eb; [|reflexivity]. rewrite (G b a Hba Eb) in Ea. discriminate.
+Qed.
+
+Lemma keys_first st : fast_path st = false -> Known_C12_key_columns_not_first st = false ->
+  same_set (lkeys st) (m_on st) = true /\ same_set (rkeys st) (m_on st) = true.
+Proof.
+  unfold Known_C12_key_columns_not_first. intros FP K. rewrite FP in K. cbn [negb andb] in K.
+  apply negb_false_iff in K. apply andb_true_iff in K. exact K.
+Qed.
+
+Lemma lkeys_ok st s : fast_path st = false -> Known_C12_key_columns_not_first st = false ->
+  existsb is_some (map (src_get (m_scols st) s) (lkeys st)) = existsb is_some (skeys st s).
+Proof. intros FP K. destruct (keys_first st FP K) as [L _]. unfold skeys. apply existsb_same_set. exact L. Qed.
+
+Lemma rkeys_ok st t : fast_path st = false -> Known_C12_key_columns_not_first st = false ->
+  existsb is_some (map (fun c => nth c t None) (rkeys st)) = existsb is_some (tkeys st t).
+Proof. intros FP K. destruct (keys_first st FP K) as [_ R]. unfold tkeys. apply existsb_same_set. exact R. Qed.
+
 Lemma act_both st it s :
   m_on st <> [] ->
   (join_null_eq st = true -> exists k, m_on st = [k]) ->
   Known_C12_fail_off_fast_path st = false ->
+  Known_C12_key_columns_not_first st = false ->
   key_match st (join_null_eq st) s (snd it) = true ->
   row_action st (mkB it s) = if sql_on st s (snd it) then wm_act st s (snd it) else ANothing.
 Proof.
-  intros Hon Hsingle K3 KM. unfold row_action. destruct (fast_path st) eqn:FP.
+  intros Hon Hsingle K3 K5 KM. unfold row_action. destruct (fast_path st) eqn:FP.
   - destruct (fast_path_facts st FP) as [Hns [Hwm _]].
     rewrite (fast_no_null_eq st FP), key_match_false in KM. rewrite KM.
     destruct (sql_on_some st s (snd it) KM) as [Hs _].
     unfold fast_action, src_keys, cond_m, wm_act. cbn [js jt jid mkB is_some]. fold (skeys st s). rewrite Hs, Hns.
     destruct (m_wm st) as [|c| |]; try congruence; destruct (m_ins st); try reflexivity;
       destruct (eval_b (widen st s ++ snd it) c); reflexivity.
-  - unfold merger_action, src_keys, tgt_keys. cbn [js jt mkB]. fold (skeys st s). fold (tkeys st (snd it)).
+  - unfold merger_action. cbn [js jt mkB]. rewrite (lkeys_ok st s FP K5), (rkeys_ok st (snd it) FP K5).
     destruct (sql_on st s (snd it)) eqn:SQ.
     + destruct (sql_on_some st s (snd it) SQ) as [Hs Ht].
       rewrite (skeys_exists st s Hon Hs), (tkeys_exists st (snd it) Hon Ht). cbn [andb].
@@ -597,17 +626,18 @@ Qed.
 
 Lemma act_src st s :
   m_on st <> [] ->
+  Known_C12_key_columns_not_first st = false ->
   (m_ins st = true -> forallb is_some (skeys st s) = true) ->
   row_action st (mkS st s) = if m_ins st then AInsert else ANothing.
 Proof.
-  intros Hon Hk. unfold row_action. destruct (fast_path st) eqn:FP.
+  intros Hon K5 Hk. unfold row_action. destruct (fast_path st) eqn:FP.
   - destruct (fast_path_facts st FP) as [Hns [Hwm _]].
     unfold fast_action, src_keys. cbn [js jt jid mkS is_some]. fold (skeys st s). rewrite Hns.
     destruct (m_ins st) eqn:I.
     + rewrite (Hk eq_refl). reflexivity.
     + destruct (forallb is_some (skeys st s)), (m_wm st); try congruence; try reflexivity;
         destruct (cond_m st _); reflexivity.
-  - unfold merger_action, src_keys, tgt_keys. cbn [js jt mkS]. fold (skeys st s). fold (tkeys st (nulls (m_ncols st))).
+  - unfold merger_action. cbn [js jt mkS]. rewrite (lkeys_ok st s FP K5), (rkeys_ok st (nulls (m_ncols st)) FP K5).
     rewrite tkeys_nulls. rewrite !andb_false_r. cbn [negb]. rewrite andb_true_r.
     destruct (m_ins st) eqn:I.
     + rewrite (skeys_exists st s Hon (Hk eq_refl)). reflexivity.
@@ -616,11 +646,12 @@ Qed.
 
 Lemma act_tgt st it :
   fast_path st = false ->
+  Known_C12_key_columns_not_first st = false ->
   (is_keep (m_ns st) = false -> existsb is_some (tkeys st (snd it)) = true) ->
   row_action st (mkT st it) = if nsdel st (snd it) then ADelete else ANothing.
 Proof.
-  intros FP Hk. unfold row_action. rewrite FP.
-  unfold merger_action, src_keys, tgt_keys. cbn [js jt mkT]. fold (skeys st (nulls (length (m_scols st)))). fold (tkeys st (snd it)).
+  intros FP K5 Hk. unfold row_action. rewrite FP.
+  unfold merger_action. cbn [js jt mkT]. rewrite (lkeys_ok st (nulls (length (m_scols st))) FP K5), (rkeys_ok st (snd it) FP K5).
   rewrite skeys_nulls. cbn [andb negb]. unfold nsdel, cond_d. cbn [jt mkT].
   destruct (existsb is_some (tkeys st (snd it))) eqn:R.
   - destruct (m_ns st); reflexivity.
@@ -700,6 +731,7 @@ Section MergeRows.
   Hypothesis K1 : Known_C12_null_key_source_rows_skipped st src = false.
   Hypothesis K2 : Known_C12_null_key_target_rows_kept st (map snd tgt) = false.
   Hypothesis K3 : Known_C12_fail_off_fast_path st = false.
+  Hypothesis K5 : Known_C12_key_columns_not_first st = false.
 
   Let ne := join_null_eq st.
   Let kd := join_kind st.
@@ -756,7 +788,7 @@ Section MergeRows.
     rewrite filter_flat_map. apply flat_map_ext_in. intros it _.
     rewrite filter_map_comm, filter_filter. f_equal. unfold hits. apply filter_ext_in'. intros s _.
     destruct (key_match st ne s (snd it)) eqn:KM; cbn [andb].
-    - unfold effective. rewrite (act_both st it s Hon Hsingle K3 KM).
+    - unfold effective. rewrite (act_both st it s Hon Hsingle K3 K5 KM).
       destruct (sql_on st s (snd it)); [reflexivity|reflexivity].
     - destruct (sql_on st s (snd it)) eqn:SQ; [|reflexivity].
       rewrite (key_match_of_sql st ne s (snd it) SQ) in KM. discriminate.
@@ -772,10 +804,10 @@ Section MergeRows.
       + f_equal. apply filter_ext_in'. intros s Hs. f_equal. rewrite existsb_map. apply existsb_ext_in. intros it _.
         apply key_match_nonnull. apply (src_keys_nonnull I s Hs).
       + intros j Hj. apply in_map_iff in Hj as [s [<- Hs]]. apply filter_In in Hs as [Hs _].
-        unfold effective. rewrite (act_src st s Hon (fun _ => src_keys_nonnull I s Hs)), I. reflexivity.
+        unfold effective. rewrite (act_src st s Hon K5 (fun _ => src_keys_nonnull I s Hs)), I. reflexivity.
     - destruct (keep_src kd); [|reflexivity]. apply filter_all_false.
       intros j Hj. apply in_map_iff in Hj as [s [<- Hs]].
-      unfold effective. rewrite (act_src st s Hon); [rewrite I; reflexivity|]. rewrite I. discriminate.
+      unfold effective. rewrite (act_src st s Hon K5); [rewrite I; reflexivity|]. rewrite I. discriminate.
   Qed.
 
   Lemma eff_tgt :
@@ -788,10 +820,10 @@ Section MergeRows.
       rewrite (filter_all_false (fun it => is_nil (matches st src (snd it)) && nsdel st (snd it))) by (intros; rewrite E; apply andb_false_r).
       destruct (keep_tgt kd) eqn:KT; [|reflexivity]. apply filter_all_false.
       intros j Hj. apply in_map_iff in Hj as [it [<- Hit]].
-      unfold effective. rewrite (act_tgt st it (keep_tgt_legacy KT)); [rewrite E; reflexivity|]. rewrite NK. discriminate.
+      unfold effective. rewrite (act_tgt st it (keep_tgt_legacy KT) K5); [rewrite E; reflexivity|]. rewrite NK. discriminate.
     - destruct (delete_means_full_join NK) as [FP [KD NE]]. rewrite KD. cbn [keep_tgt].
       rewrite filter_map_comm, filter_filter. f_equal. apply filter_ext_in'. intros it Hit.
-      unfold effective. rewrite (act_tgt st it FP (fun _ => tgt_keys_nonnull NK it Hit)).
+      unfold effective. rewrite (act_tgt st it FP K5 (fun _ => tgt_keys_nonnull NK it Hit)).
       rewrite negb_existsb_nil. unfold matches. rewrite NE.
       rewrite (filter_ext _ _ (fun s => key_match_false st s (snd it))).
       destruct (nsdel st (snd it)); reflexivity.
@@ -807,13 +839,13 @@ Section MergeRows.
   Lemma hit_action it s : In s (hits st src (snd it)) -> row_action st (mkB it s) = wm_act st s (snd it).
   Proof.
     intro H. apply filter_In in H as [_ H]. apply andb_true_iff in H as [SQ _].
-    rewrite (act_both st it s Hon Hsingle K3 (key_match_of_sql st ne s (snd it) SQ)), SQ. reflexivity.
+    rewrite (act_both st it s Hon Hsingle K3 K5 (key_match_of_sql st ne s (snd it) SQ)), SQ. reflexivity.
   Qed.
 
   Lemma ins_action s : In s (inserted st tgt src) -> row_action st (mkS st s) = AInsert.
   Proof.
     unfold inserted. destruct (m_ins st) eqn:I; [|intros []]. intro H. apply filter_In in H as [Hs _].
-    rewrite (act_src st s Hon (fun _ => src_keys_nonnull I s Hs)), I. reflexivity.
+    rewrite (act_src st s Hon K5 (fun _ => src_keys_nonnull I s Hs)), I. reflexivity.
   Qed.
 
   Lemma drop_action it : In it (dropped st tgt src) -> row_action st (mkT st it) = ADelete.
@@ -822,7 +854,7 @@ Section MergeRows.
     assert (NK : is_keep (m_ns st) = false).
     { unfold nsdel in D. destruct (m_ns st); [discriminate|reflexivity|reflexivity]. }
     destruct (delete_means_full_join NK) as [FP _].
-    rewrite (act_tgt st it FP (fun _ => tgt_keys_nonnull NK it Hit)), D. reflexivity.
+    rewrite (act_tgt st it FP K5 (fun _ => tgt_keys_nonnull NK it Hit)), D. reflexivity.
   Qed.
 End MergeRows.
 
@@ -875,6 +907,7 @@ Section MergeRun.
   Hypothesis K1 : Known_C12_null_key_source_rows_skipped st src = false.
   Hypothesis K2 : Known_C12_null_key_target_rows_kept st (map snd tgt) = false.
   Hypothesis K3 : Known_C12_fail_off_fast_path st = false.
+  Hypothesis K5 : Known_C12_key_columns_not_first st = false.
 
   Lemma run_rows_split :
     run_rows st (join_rows st (join_null_eq st) (join_kind st) tgt src)
@@ -882,7 +915,7 @@ Section MergeRun.
         (fold_left (step_row st) (map (mkS st) (inserted st tgt src))
            (fold_left (step_row st) (flat_map (fun it => map (mkB it) (hits st src (snd it))) tgt) (inl mstate0))).
   Proof.
-    unfold run_rows. rewrite fold_skip, (eff_join st tgt src Hon Hsingle Hsup K1 K2 K3), !fold_left_app. reflexivity.
+    unfold run_rows. rewrite fold_skip, (eff_join st tgt src Hon Hsingle Hsup K1 K2 K3 K5), !fold_left_app. reflexivity.
   Qed.
 
   Lemma fold_inserted s :
@@ -911,7 +944,7 @@ Section MergeRun.
       + rewrite !fold_err. reflexivity.
     - intros j Hj. apply in_flat_map in Hj as [it [_ Hj]]. apply in_map_iff in Hj as [s [<- Hs]].
       split; [|eexists; reflexivity].
-      rewrite (hit_action st src Hon Hsingle K3 it s Hs). apply fires_not_fail; [exact NF|].
+      rewrite (hit_action st src Hon Hsingle K3 K5 it s Hs). apply fires_not_fail; [exact NF|].
       apply filter_In in Hs as [_ Hs]. apply andb_true_iff in Hs as [_ F]. exact F.
   Qed.
 
@@ -931,7 +964,7 @@ Section MergeRun.
         destruct (flat_map (fun it => map (mkB it) (hits st src (snd it))) tgt); [discriminate E1|].
         rewrite !fold_err. reflexivity.
     - intros j Hj. apply in_flat_map in Hj as [it [_ Hj]]. apply in_map_iff in Hj as [s [<- Hs]].
-      rewrite (hit_action st src Hon Hsingle K3 it s Hs). apply (fires_fail st s (snd it) F).
+      rewrite (hit_action st src Hon Hsingle K3 K5 it s Hs). apply (fires_fail st s (snd it) F).
   Qed.
 End MergeRun.
 
@@ -1159,6 +1192,7 @@ Section MergeFinal.
   Hypothesis K1 : Known_C12_null_key_source_rows_skipped st src = false.
   Hypothesis K2 : Known_C12_null_key_target_rows_kept st (map snd tgt) = false.
   Hypothesis K3 : Known_C12_fail_off_fast_path st = false.
+  Hypothesis K5 : Known_C12_key_columns_not_first st = false.
   Hypothesis K4 : Known_C12_update_if_partial_schema_panics st = false.
   Hypothesis ND : NoDup (map fst tgt).
 
@@ -1298,6 +1332,7 @@ Section MergeTheorem.
   Hypothesis K1 : Known_C12_null_key_source_rows_skipped st src = false.
   Hypothesis K2 : Known_C12_null_key_target_rows_kept st (map snd tgt) = false.
   Hypothesis K3 : Known_C12_fail_off_fast_path st = false.
+  Hypothesis K5 : Known_C12_key_columns_not_first st = false.
   Hypothesis K4 : Known_C12_update_if_partial_schema_panics st = false.
 
   Lemma a_merge_runs :
@@ -1326,7 +1361,7 @@ Section MergeTheorem.
     assert (Cases : m_wm st = WmFail \/ m_wm st <> WmFail) by (destruct (m_wm st); [right|right|right|left]; congruence).
     destruct Cases as [F|NF].
     - (* WhenMatched::Fail, on the fast path *)
-      rewrite (run_rows_fail st tgt src Hon Hsingle Hsup K1 K2 K3 F).
+      rewrite (run_rows_fail st tgt src Hon Hsingle Hsup K1 K2 K3 K5 F).
       destruct (forallb (fun it => is_nil (hits st src (snd it))) tgt) eqn:AN.
       + apply (result_ok st tgt src Hsup ND). intros it Hit.
         rewrite forallb_forall in AN. specialize (AN it Hit). apply is_nil_true in AN. rewrite AN. cbn [length]. split; [lia|reflexivity].
@@ -1345,7 +1380,7 @@ Section MergeTheorem.
           rewrite sql_fate_char. rewrite (fail_hits st src (snd it) F) in X.
           destruct (matches st src (snd it)); [discriminate X|]. rewrite F. reflexivity. }
         rewrite E. reflexivity.
-    - rewrite (run_rows_not_fail st tgt src Hon Hsingle Hsup K1 K2 K3 NF).
+    - rewrite (run_rows_not_fail st tgt src Hon Hsingle Hsup K1 K2 K3 K5 NF).
       rewrite (dupfree_updates st src tgt [] ND) by (intros it _ []).
       destruct (existsb (fun it => Nat.leb 2 (length (hits st src (snd it)))) tgt) eqn:AMB; cbn [negb].
       + unfold sql_merge. rewrite (never_failed_unless_fail NF).
